@@ -300,12 +300,34 @@ class Interp:
         mode = o.get("mode", "ok")
         log = self.obs.data.setdefault("callbacks", [])
 
+        ex_slot = self.obs.futures[o["f"]]["ex"]
+
         def cb(fut, mode=mode, fid=o["f"]):
             log.append((fid, mode))
             if mode == "raise":
                 raise tasks.CustomError("callback failed")
             if mode == "raise_base":
                 raise tasks.CustomBase("callback failed hard")
+            if mode == "submit":
+                # re-submit from the done-callback (runs on the manager thread or on the cancelling thread)
+                ex = self.slots.get(ex_slot)
+                nid = "cb%s" % fid
+                if ex is None or nid in self.futs:
+                    return
+                ts = dict(id=100000 + (fid if isinstance(fid, int) else 0), kind="work", dur=0, ex=ex_slot)
+                rec = dict(fid=nid, task=ts, ex=ex_slot, thread="cb", args=[], fut=None, submitted=False,
+                           pickler_at_submit=None, cancel=None, exn=None)
+                self.obs.futures[nid] = rec
+                try:
+                    f2 = ex.submit(tasks.call, ts)
+                except sk.SimKilled:
+                    raise
+                except BaseException as e:  # noqa
+                    rec["submit_error"] = type(e).__name__
+                    return
+                rec["fut"] = f2
+                rec["submitted"] = True
+                self.futs[nid] = f2
         f.add_done_callback(cb)
         return {}
 
